@@ -75,7 +75,10 @@ def declTy (ty : Text) : Text :=
   | some d => d
   | none => []
 
-def declBase (b : FBase) : BaseV := ⟨quoteName b.name, declTy b.ty, b.dims.map (·.2), b.dims.filterMap (·.1), true⟩
+/-- a declaration naming all of its dimensions carries the names; one naming only some of them (`Int32 a[x = 2][3]`)
+    declares its shape, and — a tuple of names cannot say which axes they name — no dimension names (`fitDims`) -/
+def declBase (b : FBase) : BaseV :=
+  ⟨quoteName b.name, declTy b.ty, b.dims.map (·.2), fitDims (b.dims.map (·.2)) (b.dims.filterMap (·.1)), true⟩
 
 mutual
 def declT : FTmpl → Tmpl
